@@ -159,20 +159,45 @@ theorem compileC_correct {F} (ops : FOps F) : ∀ (e : CE F) (t : Ty), ty e.eras
                   simp [top1]
 
 
-/-! ### where the machine's integer arithmetic is not QBASIC's -/
+/-! ### integer division is QBASIC's -/
 
-/-- QBASIC's `\` truncates toward zero and MOD takes the sign of the dividend; the machine (and the constant
-    folder) use Python's floor division and modulo -/
-theorem idiv_deviates_from_qbasic : pyFloorDiv (-7) 2 = -4 ∧ Int.tdiv (-7) 2 = -3 ∧
-    pyMod (-7) 2 = 1 ∧ Int.tmod (-7) 2 = -1 := by decide
-
-/-- partial: for non-negative dividend and positive divisor the two agree -/
-theorem idiv_mod_agree_nonneg (a b : Int) (ha : 0 ≤ a) (hb : 0 < b) :
-    pyFloorDiv a b = Int.tdiv a b ∧ pyMod a b = Int.tmod a b := by
-  unfold pyFloorDiv pyMod
+/-- the machine's and the folder's `\` (as repaired) is truncated division and their MOD its remainder, for all operands -/
+theorem idiv_is_truncation (a b : Int) : qbIDiv a b = Int.tdiv a b ∧ qbMod a b = Int.tmod a b := by
+  unfold qbIDiv qbMod
   constructor
-  · rw [Int.fdiv_eq_ediv_of_nonneg _ (by omega), Int.tdiv_eq_ediv_of_nonneg ha]
-  · rw [Int.fmod_eq_emod_of_nonneg _ (by omega), Int.tmod_eq_emod_of_nonneg ha]
+  · rcases Int.natAbs_eq a with ha | ha <;> rcases Int.natAbs_eq b with hb | hb
+    all_goals
+      generalize a.natAbs = m at *
+      generalize b.natAbs = n at *
+      subst ha; subst hb
+    · by_cases hm : m = 0 <;> by_cases hn : n = 0 <;> simp_all <;> omega
+    · by_cases hm : m = 0 <;> by_cases hn : n = 0 <;> simp_all [Int.tdiv_neg] <;> omega
+    · by_cases hm : m = 0 <;> by_cases hn : n = 0 <;> simp_all [Int.neg_tdiv] <;> omega
+    · by_cases hm : m = 0 <;> by_cases hn : n = 0 <;> simp_all [Int.neg_tdiv, Int.tdiv_neg] <;> omega
+  · have key : ∀ m n : Nat, Int.tmod (m : Int) (n : Int) = ((m % n : Nat) : Int) := fun _ _ => rfl
+    rcases Int.natAbs_eq a with ha | ha <;> rcases Int.natAbs_eq b with hb | hb
+    all_goals
+      generalize a.natAbs = m at *
+      generalize b.natAbs = n at *
+      subst ha; subst hb
+    · have h0 : ¬ ((m : Int) < 0) := by omega
+      simp [h0, key]
+    · have h0 : ¬ ((m : Int) < 0) := by omega
+      simp [h0, Int.tmod_neg, key]
+    · by_cases hm : m = 0
+      · subst hm; simp
+      · have h0 : (-(m : Int)) < 0 := by omega
+        simp [h0, Int.neg_tmod, key]
+        intro h; exact absurd h hm
+    · by_cases hm : m = 0
+      · subst hm; simp
+      · have h0 : (-(m : Int)) < 0 := by omega
+        simp [h0, Int.neg_tmod, Int.tmod_neg, key]
+        intro h; exact absurd h hm
+
+/-- the defect that was repaired, kept as a witness: Python's floored operators differ from QBASIC's on negative operands -/
+theorem floored_division_was_wrong : pyFloorDiv (-7) 2 = -4 ∧ Int.tdiv (-7) 2 = -3 ∧
+    pyMod (-7) 2 = 1 ∧ Int.tmod (-7) 2 = -1 := by decide
 
 -- non-vacuity: (3% + 2.5#) < 7! evaluates, through compiled code, to the INTEGER -1
 example : ty (CE.bin 10 (CE.bin 1 (CE.leaf (.int .i 3)) (CE.leaf (.int .i 4))) (CE.leaf (.int .l 9)) : CE Nat).erase = some .i := by decide
